@@ -778,6 +778,22 @@ class _Stmt:
                     self.changed = True
                     stmts = stmts[:i] + [new_if] + stmts[i + 2:]
                     continue
+            # q, r = divmod(a, b)  ->  q = a // b; r = a % b      (a, b plain operands)
+            if isinstance(s, ast.Assign) and len(s.targets) == 1 and isinstance(s.targets[0], ast.Tuple) and len(s.targets[0].elts) == 2 \
+                    and all(isinstance(t, ast.Name) for t in s.targets[0].elts) and isinstance(s.value, ast.Call) and isinstance(s.value.func, ast.Name) \
+                    and s.value.func.id == "divmod" and len(s.value.args) == 2 and not s.value.keywords and not self.t._is_local("divmod") \
+                    and not any(isinstance(x, ast.Call) for a_ in s.value.args for x in ast.walk(a_)) \
+                    and not any(isinstance(x, ast.Name) and x.id in {t.id for t in s.targets[0].elts} for a_ in s.value.args for x in ast.walk(a_)):
+                a_, b_ = s.value.args
+                q_ = ast.copy_location(ast.Assign(targets=[ast.Name(id=s.targets[0].elts[0].id, ctx=ast.Store())],
+                                                  value=ast.BinOp(left=copy.deepcopy(a_), op=ast.FloorDiv(), right=copy.deepcopy(b_)), lineno=s.lineno), s)
+                r_ = ast.copy_location(ast.Assign(targets=[ast.Name(id=s.targets[0].elts[1].id, ctx=ast.Store())],
+                                                  value=ast.BinOp(left=copy.deepcopy(a_), op=ast.Mod(), right=copy.deepcopy(b_)), lineno=s.lineno), s)
+                ast.fix_missing_locations(q_)
+                ast.fix_missing_locations(r_)
+                self.changed = True
+                stmts = stmts[:i] + [q_, r_] + stmts[i + 1:]
+                continue
             # a, b = (X1, Y1) if c else (X2, Y2)  ->  a, b = (X1 if c else X2), (Y1 if c else Y2)     (c a plain name / constant test)
             if isinstance(s, ast.Assign) and len(s.targets) == 1 and isinstance(s.targets[0], ast.Tuple) and isinstance(s.value, ast.IfExp) \
                     and isinstance(s.value.body, ast.Tuple) and isinstance(s.value.orelse, ast.Tuple) \
